@@ -1,6 +1,6 @@
 // Text-layer components: tok, utf8, ws, textdiff, udiff, remap, inline, close,
 // identify, repeat.  Texts travel as hex.
-use crate::{fmt_calls, fmt_opt, fmt_tag, install_clock, ops_to_calls, parse_alg, parse_list, parse_opt, parse_range, Kv};
+use crate::{fmt_calls, fmt_opt, fmt_tag, install_clock, ops_to_calls, same_ops, parse_alg, parse_list, parse_opt, parse_range, Kv};
 use similar::{ChangeTag, DiffableStr, TextDiff};
 
 pub fn unhex(s: &str) -> Vec<u8> {
@@ -219,6 +219,20 @@ fn textdiff_report<'a, T: DiffableStr + ?Sized>(d: &'a TextDiff<'a, 'a, 'a, T>, 
     )
 }
 
+// other content of the same length and line structure: ASCII letters and digits are rotated, everything else
+// (terminators, multi-byte sequences, invalid bytes) stays
+fn scramble(b: &mut [u8]) {
+    for (i, x) in b.iter_mut().enumerate() {
+        if x.is_ascii_lowercase() {
+            *x = b'a' + (*x - b'a' + 1 + (i % 3) as u8) % 26;
+        } else if x.is_ascii_digit() {
+            *x = b'0' + (*x - b'0' + 1) % 10;
+        } else if x.is_ascii_uppercase() {
+            *x = b'A' + (*x - b'A' + 1) % 26;
+        }
+    }
+}
+
 fn case_textdiff(kv: &Kv) -> String {
     let kind = kv["tok"];
     let o = unhex(kv["old"]);
@@ -243,7 +257,7 @@ fn case_textdiff(kv: &Kv) -> String {
         }
     }
     fn same_diff<'a, 'b, T: DiffableStr + ?Sized>(a: &TextDiff<'a, 'a, 'a, T>, b: &TextDiff<'b, 'b, 'b, T>) -> bool {
-        a.ops() == b.ops()
+        same_ops(a.ops(), b.ops())
             && a.algorithm() == b.algorithm()
             && a.newline_terminated() == b.newline_terminated()
             && a.old_slices().len() == b.old_slices().len()
@@ -271,6 +285,20 @@ fn case_textdiff(kv: &Kv) -> String {
     let r = if kv["mode"] == "str" {
         let os = std::str::from_utf8(&o).unwrap();
         let ns = std::str::from_utf8(&n).unwrap();
+        // the builder has been used before: on other data of the same shape (old and new swapped), and on the very
+        // same buffers holding other content of the same length (refilled in place afterwards)
+        let mut ob = o.clone();
+        let mut nb = n.clone();
+        if dl.is_none() && o.len() + n.len() < 200_000 {
+            let _ = diff_with(&c, kind, ns, os).ops().len();
+            scramble(&mut ob);
+            scramble(&mut nb);
+            let _ = diff_with(&c, kind, std::str::from_utf8(&ob).unwrap(), std::str::from_utf8(&nb).unwrap()).ops().len();
+            ob.copy_from_slice(&o);
+            nb.copy_from_slice(&n);
+        }
+        let os = std::str::from_utf8(&ob).unwrap();
+        let ns = std::str::from_utf8(&nb).unwrap();
         let d = diff_with(&c, kind, os, ns);
         let probes = if dl.is_some() { similar::verif::clock_remove() } else { 0 };
         let mut cs = !defaults || same_diff(&d, &ctor(kind, os, ns));
@@ -281,6 +309,17 @@ fn case_textdiff(kv: &Kv) -> String {
         }
         format!("{} ctor_same={}", textdiff_report(&d, os, ns, probes), if cs { 1 } else { 0 })
     } else {
+        let mut ob = o.clone();
+        let mut nb = n.clone();
+        if dl.is_none() && o.len() + n.len() < 200_000 {
+            let _ = diff_with(&c, kind, &n[..], &o[..]).ops().len();
+            scramble(&mut ob);
+            scramble(&mut nb);
+            let _ = diff_with(&c, kind, &ob[..], &nb[..]).ops().len();
+            ob.copy_from_slice(&o);
+            nb.copy_from_slice(&n);
+        }
+        let (o, n) = (ob, nb);
         let d = diff_with(&c, kind, &o[..], &n[..]);
         let probes = if dl.is_some() { similar::verif::clock_remove() } else { 0 };
         let mut cs = !defaults || same_diff(&d, &ctor(kind, &o[..], &n[..]));
@@ -594,6 +633,17 @@ fn case_inline(kv: &Kv) -> String {
             .iter()
             .map(|(e, v)| format!("{}.{}", if *e { 1 } else { 0 }, hex(v.as_bytes())))
             .collect();
+        // the lossy accessors agree with values(): same segments, same emphasis, lossy text of the same bytes
+        let lossy: Vec<(bool, String)> = ch.iter_strings_lossy().map(|(e, t)| (e, t.into_owned())).collect();
+        let want: Vec<(bool, String)> = ch
+            .values()
+            .iter()
+            .map(|(e, v)| (*e, String::from_utf8_lossy(v.as_bytes()).into_owned()))
+            .collect();
+        let cat = |v: &Vec<(bool, String)>| v.iter().map(|x| x.1.clone()).collect::<String>();
+        if cat(&lossy) != cat(&want) || (lossy.len() == want.len() && lossy != want) {
+            panic!("iter_strings_lossy disagrees with values()");
+        }
         format!(
             "{}:{}:{}:{}:{}",
             fmt_tag(ch.tag()),
@@ -766,25 +816,25 @@ fn case_repeat(kv: &Kv) -> String {
     {
         let o2: Vec<Coarse> = old.iter().map(|x| Coarse(*x)).collect();
         let n2: Vec<Coarse> = new.iter().map(|x| Coarse(*x)).collect();
-        if similar::capture_diff(alg, &o2[..], os..oe, &n2[..], ns..ne) != base {
+        if !same_ops(&similar::capture_diff(alg, &o2[..], os..oe, &n2[..], ns..ne), &base) {
             all_same = false;
         }
         let o3: Vec<Constant> = old.iter().map(|x| Constant(*x)).collect();
         let n3: Vec<Constant> = new.iter().map(|x| Constant(*x)).collect();
-        if similar::capture_diff(alg, &o3[..], os..oe, &n3[..], ns..ne) != base {
+        if !same_ops(&similar::capture_diff(alg, &o3[..], os..oe, &n3[..], ns..ne), &base) {
             all_same = false;
         }
         // equal contents: the very same object passed as old and as new (aliasing must not matter), through the
         // capture function and through the raw algorithm with a recording hook
         if old == new {
-            if similar::capture_diff(alg, &old[..], os..oe, &old[..], ns..ne) != base {
+            if !same_ops(&similar::capture_diff(alg, &old[..], os..oe, &old[..], ns..ne), &base) {
                 all_same = false;
             }
             let mut h = similar::algorithms::Capture::new();
             similar::algorithms::diff(alg, &mut h, &old[..], os..oe, &old[..], ns..ne).unwrap();
             let mut h2 = similar::algorithms::Capture::new();
             similar::algorithms::diff(alg, &mut h2, &old[..], os..oe, &new[..], ns..ne).unwrap();
-            if h.ops() != h2.ops() {
+            if !same_ops(h.ops(), h2.ops()) {
                 all_same = false;
             }
         }
@@ -802,13 +852,13 @@ fn case_repeat(kv: &Kv) -> String {
             }
         }
         let nw: Vec<Wide> = new.iter().map(|x| Wide(*x)).collect();
-        if similar::capture_diff(alg, &old[..], os..oe, &nw[..], ns..ne) != base {
+        if !same_ops(&similar::capture_diff(alg, &old[..], os..oe, &nw[..], ns..ne), &base) {
             all_same = false;
         }
         // the slice entry points (capture_diff_slices, utils::diff_slices) on the same colliding-hash items
         if os == 0 && ns == 0 && oe == old.len() && ne == new.len() {
-            if similar::capture_diff_slices(alg, &o2[..], &n2[..]) != base
-                || similar::capture_diff_slices(alg, &o3[..], &n3[..]) != base
+            if !same_ops(&similar::capture_diff_slices(alg, &o2[..], &n2[..]), &base)
+                || !same_ops(&similar::capture_diff_slices(alg, &o3[..], &n3[..]), &base)
             {
                 all_same = false;
             }
@@ -836,7 +886,7 @@ fn case_repeat(kv: &Kv) -> String {
             similar::algorithms::diff_slices(alg, &mut hs, &old[..], &new[..]).unwrap();
             let mut hd = similar::algorithms::Capture::new();
             similar::algorithms::diff(alg, &mut hd, &old[..], 0..old.len(), &new[..], 0..new.len()).unwrap();
-            if hs.ops() != hd.ops() {
+            if !same_ops(hs.ops(), hd.ops()) {
                 all_same = false;
             }
         }
@@ -862,7 +912,7 @@ fn case_repeat(kv: &Kv) -> String {
                 let o2: Vec<u64> = old.iter().map(|x| f(*x)).collect();
                 let n2: Vec<u64> = new.iter().map(|x| f(*x)).collect();
                 let ops = similar::capture_diff(alg, &o2[..], os..oe, &n2[..], ns..ne);
-                if ops != base {
+                if !same_ops(&ops, &base) {
                     ok = false;
                 }
             }
